@@ -17,6 +17,8 @@ use common::{Ctx, Tier};
 
 fn main() {
     let args: Vec<String> = std::env::args().collect();
+    // the library's log lines are evaluated, as under the command-line tools (common.rs)
+    common::install_tracing_sink();
     if args.len() < 3 {
         eprintln!("usage: verif-harness run|replay <Cxx> [--tier T] [--seed N] [--ops FILE] --out DIR");
         std::process::exit(2);
